@@ -29,6 +29,16 @@ impl VAtomicU64 {
     pub fn load(&self, o: Ordering) -> (r: u64)
         ensures r == self.v
     { self.v }
+    // the rest of the AtomicU64 surface a changed body may reach for (sequential semantics)
+    pub fn store(&mut self, x: u64, o: Ordering)
+        ensures final(self).v == x
+    { self.v = x; }
+    pub fn swap(&mut self, x: u64, o: Ordering) -> (r: u64)
+        ensures r == old(self).v, final(self).v == x
+    { let r = self.v; self.v = x; r }
+    pub fn fetch_xor(&mut self, m: u64, o: Ordering) -> (r: u64)
+        ensures r == old(self).v, final(self).v == old(self).v ^ m
+    { let r = self.v; self.v = self.v ^ m; r }
 }
 impl VAtomicU64 {
     pub fn new(v: u64) -> (r: VAtomicU64) ensures r.v == v { VAtomicU64 { v } }
